@@ -44,14 +44,41 @@ func eval(src string) cue.Value {
 }
 
 func rat(s string) *big.Rat {
-	r, ok := new(big.Rat).SetString(s)
-	if !ok {
-		panic("bad number " + s)
-	}
+	r, _ := operand(s)
 	return r
 }
 
-func isIntLit(s string) bool { return !strings.ContainsAny(s, ".eE") }
+func isIntLit(s string) bool {
+	if strings.HasPrefix(s, "(") {
+		_, isInt := operand(s)
+		return isInt
+	}
+	return !strings.ContainsAny(s, ".eE")
+}
+
+// operand evaluates an operand spelling with the model: a literal, or a
+// computed operand "(lit op lit)" with op in + - * (exact).
+func operand(s string) (*big.Rat, bool) {
+	if !strings.HasPrefix(s, "(") {
+		r, ok := new(big.Rat).SetString(s)
+		if !ok {
+			panic("bad number " + s)
+		}
+		return r, !strings.ContainsAny(s, ".eE")
+	}
+	f := strings.Fields(strings.Trim(s, "()"))
+	x, xi := operand(f[0])
+	y, yi := operand(f[2])
+	switch f[1] {
+	case "+":
+		return new(big.Rat).Add(x, y), xi && yi
+	case "-":
+		return new(big.Rat).Sub(x, y), xi && yi
+	case "*":
+		return new(big.Rat).Mul(x, y), xi && yi
+	}
+	panic("bad operand " + s)
+}
 
 // sigDigits: number of significant digits needed to write r exactly as a
 // decimal, or -1 when r is not a finite decimal.
@@ -189,10 +216,6 @@ func run(c Case) evid.Result {
 			want = new(big.Rat).Quo(ra, rb)
 		}
 		wantInt := bothInt && c.Op != "/"
-		if wantInt && exclF8 && sigDigits(want) > 34 {
-			res.Skip, res.Excluded = true, "IntResultAtMost34Digits(F8)"
-			return res
-		}
 		if v.Err() != nil {
 			res.Fail = fmt.Sprintf("%s: unexpected error %v", src, v.Err())
 			return res
@@ -255,11 +278,8 @@ func run(c Case) evid.Result {
 	case "divmod":
 		a, _ := new(big.Int).SetString(c.A, 10)
 		b, _ := new(big.Int).SetString(c.B, 10)
-		if exclF8 && (len(strings.TrimPrefix(c.A, "-")) > 34 || len(strings.TrimPrefix(c.B, "-")) > 34) {
-			res.Skip, res.Excluded = true, "IntOperandAtMost34Digits(F8)"
-			return res
-		}
-		src := fmt.Sprintf("x: [div(%s, %s), mod(%s, %s), quo(%s, %s), rem(%s, %s)]", c.A, c.B, c.A, c.B, c.A, c.B, c.A, c.B)
+		// the operands are named fields shared by all four calls (and used twice)
+		src := fmt.Sprintf("a: %s\nb: %s\nx: [div(a, b), mod(a, b), quo(a, b), rem(a, b)]\ny: [rem(a, b), quo(a, b), mod(a, b), div(a, b)]", c.A, c.B)
 		if b.Sign() == 0 {
 			for _, f := range []string{"div", "mod", "quo", "rem"} {
 				v := eval(fmt.Sprintf("x: %s(%s, %s)", f, c.A, c.B))
@@ -295,6 +315,14 @@ func run(c Case) evid.Result {
 		if got[0].Cmp(d) != 0 || got[1].Cmp(m) != 0 || got[2].Cmp(q) != 0 || got[3].Cmp(r) != 0 {
 			res.Fail = fmt.Sprintf("%s = %v, want [%v, %v, %v, %v]", src, v, d, m, q, r)
 			return res
+		}
+		y := ctx.CompileString(src).LookupPath(cue.ParsePath("y"))
+		for i, w := range []*big.Int{r, q, m, d} {
+			e := y.LookupPath(cue.MakePath(cue.Index(i)))
+			if g, _ := new(big.Int).SetString(fmt.Sprint(e), 10); g == nil || g.Cmp(w) != 0 {
+				res.Fail = fmt.Sprintf("%s: second use of the shared operands: y[%d] = %v, want %v", src, i, e, w)
+				return res
+			}
 		}
 		// the identities, stated on the evaluator's own results
 		chk := new(big.Int).Mul(b, got[0])
@@ -620,13 +648,33 @@ func genArith(t *rapid.T) Case {
 	if rapid.IntRange(0, 9).Draw(t, "rel") == 0 {
 		b = a // cancellation
 	}
+	if rapid.IntRange(0, 5).Draw(t, "computed") == 0 {
+		a = computed(t)
+	}
 	return Case{Kind: "arith", Op: op, A: a, B: b}
+}
+
+var smallOps = []string{"0", "1", "-1", "2", "-5", "0.0", "0.5", "-0.5", "1.0", "-2.5", "10", "1e3", "-0.0"}
+
+// computed draws an operand that is the result of an operation (so that signed
+// zeros, non-normalised exponents and the like reach the operator under test).
+func computed(t *rapid.T) string {
+	return fmt.Sprintf("(%s %s %s)", rapid.SampledFrom(smallOps).Draw(t, "cx"), rapid.SampledFrom([]string{"+", "-", "*"}).Draw(t, "cop"), rapid.SampledFrom(smallOps).Draw(t, "cy"))
 }
 
 func genCmp(t *rapid.T) Case {
 	op := rapid.SampledFrom([]string{"<", "<=", ">", ">=", "==", "!="}).Draw(t, "op")
 	a := genNum(t)
 	b := genNum(t)
+	if rapid.IntRange(0, 3).Draw(t, "computed") == 0 {
+		a = computed(t)
+		if rapid.Bool().Draw(t, "bsmall") {
+			b = rapid.SampledFrom(smallOps).Draw(t, "bs")
+		} else if rapid.Bool().Draw(t, "bcomp") {
+			b = computed(t)
+		}
+		return Case{Kind: "cmp", Op: op, A: a, B: b}
+	}
 	switch rapid.IntRange(0, 5).Draw(t, "rel") {
 	case 0:
 		b = a
@@ -675,8 +723,8 @@ func genStrCmp(t *rapid.T) Case {
 }
 
 func genDivMod(t *rapid.T) Case {
-	a := genInt(t, 34)
-	b := genInt(t, 20)
+	a := genInt(t, 60)
+	b := genInt(t, 45)
 	if rapid.IntRange(0, 19).Draw(t, "zero") == 0 {
 		b = "0"
 	}
